@@ -1,8 +1,9 @@
 /-
 C38 — option parsing matches the GNU/BSD getopt_long conventions.
 
-Model: ElvModel/C38/Model.lean (`fx = true`: the code with the three repairs in
-fixes/C38-*.patch; `fx = false`: the unchanged tree).  Spec: ElvModel/C38/Spec.lean
+Model: ElvModel/C38/Model.lean (`fx = true`: the code with the four repairs in
+fixes/C38-*.patch — round 2 added `C38-noarg-attached-arg`; `fx = false`: the
+unchanged tree).  Spec: ElvModel/C38/Spec.lean
 (`read`: the look-ahead reading of the conventions into `Item`s; `context`: how
 the last word is completed).  `WF specs`: no long name contains `=`.
 -/
@@ -42,83 +43,71 @@ abbrev C38_na : Bytes := [110, 97]
 
 /-! ## First sentence: `Parse` against the conventions -/
 
-/-- C38 (parsing) at full strength: the options (with arguments) and operands
-are exactly those the conventions assign, and an error is reported exactly
-when GNU/BSD getopt_long would report one. -/
-def C38_full_parse : Prop :=
+/-- C38 (parsing) at full strength, for the code variant `fx`: the options
+(with arguments) and operands are exactly those the conventions assign, and an
+error is reported exactly when GNU/BSD getopt_long would report one. -/
+def C38_full_parse_for (fx : Bool) : Prop :=
   ∀ (specs : List OptionSpec) (args : List Bytes) (cfg : Nat), WF specs →
-    ∃ err, Parse true args specs cfg =
+    ∃ err, Parse fx args specs cfg =
         .ok (optsOf false (read cfg specs args false), operandsOf (read cfg specs args false), err) ∧
       (err = none ↔ accepted (read cfg specs args false) = true)
 
+/-- C38 (parsing) at full strength (the fixed code). -/
+def C38_full_parse : Prop := C38_full_parse_for true
+
 /-- The loop variables of `parse` are exactly the spec's reading: options in
-order, operands in order, the option still waiting for its required argument,
-and whether option parsing has ended.  No panic. -/
+order (an option written `--name=value` although it takes no argument is NOT
+among them: it is set aside in `extraArg`), operands in order, the option still
+waiting for its required argument, and whether option parsing has ended.  No
+panic. -/
 theorem C38_parse_refines_spec (specs : List OptionSpec) (hwf : WF specs) (cfg : Nat)
     (args : List Bytes) :
     parse true args specs cfg =
-      .ok ⟨optsOf true (read cfg specs args false), operandsOf (read cfg specs args false),
-           missingOf (read cfg specs args false), ended cfg (read cfg specs args false)⟩ :=
+      .ok ⟨optsOf false (read cfg specs args false), operandsOf (read cfg specs args false),
+           missingOf (read cfg specs args false), ended cfg (read cfg specs args false),
+           extraOf (read cfg specs args false)⟩ :=
   parse_eq specs hwf cfg args
 
-/-- PARTIAL w.r.t. `C38_full_parse`: `Parse` returns the conventions' options
-and operands under the LENIENT correspondence (a `--name=value` for an option
-that takes no argument — `Item.badArg`, an error for GNU/BSD — becomes that
-option with `Argument = value`), and reports an error exactly for a missing
-required argument or an unknown option.  Gap: the `badArg` case (finding
-`noarg-long-attached-arg`), see `C38_counterexample`. -/
-theorem C38_Parse_refines_spec_partial (specs : List OptionSpec) (hwf : WF specs) (cfg : Nat)
-    (args : List Bytes) :
-    ∃ err, Parse true args specs cfg =
-        .ok (optsOf true (read cfg specs args false), operandsOf (read cfg specs args false), err) ∧
-      (err = none ↔ acceptedLenient (read cfg specs args false) = true) := by
+/-- `Parse` returns exactly the conventions' options and operands (strict
+reading: `--name=value` for an option that takes no argument delivers no
+option), and reports an error exactly when GNU/BSD getopt_long would: a missing
+required argument, an unknown option, or such a `--name=value`.  (Round 2:
+with `fixes/C38-noarg-attached-arg.patch` the former exclusion of the `badArg`
+case is gone; this is the full statement.) -/
+theorem C38_Parse_refines_spec : C38_full_parse := by
+  intro specs args cfg hwf
   unfold Parse
   rw [parse_eq specs hwf]
   refine ⟨_, rfl, ?_⟩
   rw [multiError_none, parseErrors_nil_iff]
-  simp only [missingOf_none_iff, unknown_filter_nil_iff, acceptedLenient]
+  simp only [missingOf_none_iff, unknown_filter_nil_iff, extraOf_nil_iff, accepted]
   cases (read cfg specs args false).any isUnknown <;>
-    cases (read cfg specs args false).any isMissing <;> simp
-
-/-- PARTIAL: the full statement holds for every input in which no
-`--name=value` is given to an option that takes no argument. -/
-theorem C38_Parse_exact_when_no_badArg_partial (specs : List OptionSpec) (hwf : WF specs) (cfg : Nat)
-    (args : List Bytes) (hno : (read cfg specs args false).any isBadArg = false) :
-    ∃ err, Parse true args specs cfg =
-        .ok (optsOf false (read cfg specs args false), operandsOf (read cfg specs args false), err) ∧
-      (err = none ↔ accepted (read cfg specs args false) = true) := by
-  obtain ⟨err, h1, h2⟩ := C38_Parse_refines_spec_partial specs hwf cfg args
-  have hopts : ∀ l : List Item, l.any isBadArg = false → optsOf true l = optsOf false l := by
-    intro l
-    induction l with
-    | nil => intro _; rfl
-    | cons a l ih =>
-      intro h
-      simp only [List.any_cons, Bool.or_eq_false_iff] at h
-      have ih' := ih h.2
-      have hc : ∀ b, optsOf b (a :: l) =
-          (match Item.toOpt b a with | some o => [o] | none => []) ++ optsOf b l := by
-        intro b
-        unfold optsOf
-        rw [List.filterMap_cons]
-        cases Item.toOpt b a <;> rfl
-      rw [hc, hc, ih']
-      cases a <;> simp_all [Item.toOpt, isBadArg]
-  refine ⟨err, ?_, ?_⟩
-  · rw [h1, hopts _ hno]
-  · rw [h2]; simp [accepted, acceptedLenient, hno]
+    cases (read cfg specs args false).any isMissing <;>
+      cases (read cfg specs args false).any isBadArg <;> simp
 
 def C38_witnessSpecs : List OptionSpec :=
   [⟨118, C38_verbose, NoArgument⟩, ⟨102, C38_file, RequiredArgument⟩,
    ⟨105, C38_inPlace, OptionalArgument⟩]
 
-/-- `--verbose=x` for the no-argument option `verbose`: GNU/BSD report
-"option doesn't allow an argument"; the code returns the option with
-`Argument = "x"` and no error.  (Witness in harness/corpus/C38.txt.) -/
-theorem C38_counterexample : ¬ C38_full_parse := by
+/-- non-vacuity / the former finding: `--verbose=x` for the no-argument option
+`verbose` now delivers no option and reports the error. -/
+example : (match Parse true [C38_ddVerboseEqX] C38_witnessSpecs GNU with
+    | .ok (opts, operands, err) => opts.isEmpty && operands.isEmpty && err.isSome
+    | _ => false) = true := by decide
+
+/-- … also with an empty value (`--verbose=`), which Go cannot tell from
+`--verbose` by looking at `Option.Argument`. -/
+example : (match Parse true [[45, 45, 118, 101, 114, 98, 111, 115, 101, 61]] C38_witnessSpecs GNU with
+    | .ok (opts, operands, err) => opts.isEmpty && operands.isEmpty && err.isSome
+    | _ => false) = true := by decide
+
+/-- The unchanged tree: `--verbose=x` for the no-argument option `verbose`:
+GNU/BSD report "option doesn't allow an argument"; the code returns the option
+with `Argument = "x"` and no error.  (Witness in harness/corpus/C38.txt.) -/
+theorem C38_counterexample : ¬ C38_full_parse_for false := by
   intro h
   obtain ⟨err, h1, _⟩ := h C38_witnessSpecs [C38_ddVerboseEqX] GNU (by unfold WF C38_witnessSpecs; decide)
-  have h2 : Parse true [C38_ddVerboseEqX] C38_witnessSpecs GNU =
+  have h2 : Parse false [C38_ddVerboseEqX] C38_witnessSpecs GNU =
       .ok ([known 0 ⟨118, C38_verbose, NoArgument⟩ true C38_x], [], none) := by decide
   rw [h2] at h1
   have h3 : optsOf false (read GNU C38_witnessSpecs [C38_ddVerboseEqX] false) = [] := by decide
@@ -256,7 +245,7 @@ example : read GNU C38_witnessSpecs [C38_dVF, C38_x, C38_dd, C38_dV] false =
      .option 1 ⟨102, C38_file, RequiredArgument⟩ false (some C38_x),
      .terminator, .operand C38_dV] := by decide
 
-/-- the hypothesis of `C38_Parse_exact_when_no_badArg_partial` is satisfiable -/
+/-- `--file=x -i.bak`: attached arguments where they are allowed. -/
 example : (read GNU C38_witnessSpecs [C38_ddFileEqX, C38_dIBak] false).any isBadArg = false := by
   decide
 
